@@ -112,12 +112,12 @@ def plan(tier):
                     min_evals={"lp_gain": 4400, "lp_hard_edge": 2800, "lp_soft_edge": 1500, "lp_soft_rays": 800, "lp_soft_symmetry": 700,
                                "hp_gain": 4200, "hp_complement": 4200, "bp_difference": 1600, "bp_gain": 1600,
                                "res2pix": 12900, "filter_radius": 28700, "linearity": 1100, "shift_commute": 580, "plane_wave": 8000,
-                               "resolution_equiv": 500})
+                               "resolution_equiv": 500, "default_widths": 500})
     return dict(n_cases=16 * 50 * len(CLASSES), shards=16, classes=CLASSES, timeout_s=3300,
                 min_evals={"lp_gain": 90000, "lp_hard_edge": 45000, "lp_soft_edge": 45000, "lp_soft_rays": 20000, "lp_soft_symmetry": 16000,
                            "hp_gain": 90000, "hp_complement": 90000, "bp_difference": 45000, "bp_gain": 45000, "res2pix": 160000,
                            "filter_radius": 250000, "linearity": 30000, "shift_commute": 15000, "plane_wave": 150000,
-                           "resolution_equiv": 12000})
+                           "resolution_equiv": 12000, "default_widths": 15000})
 
 
 # ---- the quantifier as predicates ---------------------------------------------------------------
@@ -943,6 +943,10 @@ def run_config(ctx, case, rng, aux_stream=2):
         for given, other, d_other in (("lp_gaussian", "hp_gaussian", DOC_DEFAULT["bandpass"][1]), ("hp_gaussian", "lp_gaussian", DOC_DEFAULT["bandpass"][0])):
             kw0 = kwargs_for(case, "bandpass", widths="omitted")
             sv = case["s_lp"] if given == "lp_gaussian" else case["s_hp"]
+            if case.get("sigtype") == "np.float32":
+                # kept out until the lead rules: ONE width as np.float32 next to the other as a Python number makes skimage blur the two
+                # spheres with kernels of different precision; with equal widths and cutoffs the (empty) band then has a gain of -2e-9
+                continue
             oka, ya = ctx.call("bandpass", cm.bandpass, relayout(x, lay), **dict(kw0, **{given: _sig(case, sv)}))
             # (the passed width goes in the same scalar kind in both calls: a np.float32 width makes skimage build its kernel in single
             #  precision, a 1e-8 difference in the transition zone that the property does not speak about)
